@@ -122,6 +122,13 @@ def check(run):
     one_case(run, specs, gamma, np.zeros(3), check_tau=False)
     run.count("zero-diagonal density matrix with non-negative density")
     indefinite_tau_case(run)
+    # shells that keep their stored coefficients instead of renormalising (what from_iodata builds): the overlap diagonal is the true
+    # self-overlap, not 1, and must equal the integrated squares of the evaluations
+    c = [core.snap(rng.uniform(-0.4, 0.4), 8) for _ in range(3)]
+    specs = [ShellSpec(0, c, [1.1, 0.4], [[0.7, 0.2], [0.4, 0.9]], unit_norm=False), ShellSpec(1, [c[0] + 0.5, c[1], c[2] - 0.3], [0.9], [[0.8]], sph=True, unit_norm=False)]
+    nb = sum(s_.size for s_ in specs)
+    one_case(run, specs, random_symmetric(rng, nb, psd=True), np.zeros(3))
+    run.count("shells that are not renormalised")
 
 
 def indefinite_tau_case(run):
